@@ -265,8 +265,10 @@ def run(check, repo: Repo) -> None:
         if isinstance(n_, ast.For) and "delta_coefs_cartesian" in unparse(n_.iter):
             body_txt = [unparse(x) for x in n_.body]
             ifs = [x for x in n_.body if isinstance(x, ast.If) and " in updated_coefs_cartesian" in unparse(x.test)]
-            adds = any("updated_coefs_cartesian[k] + v" in t or "v + updated_coefs_cartesian[k]" in t or ("updated_coefs_cartesian.get(k" in t and "+ v" in t) or "+= v" in t for t in body_txt)
-            if not adds:
+            adds = any("updated_coefs_cartesian[k] + v" in t or "v + updated_coefs_cartesian[k]" in t or ("updated_coefs_cartesian.get(k" in t and "+ v" in t) for t in body_txt)
+            if any("+= v" in t for t in body_txt):
+                form = "in-place"  # `d[k] += v` adds into the tensor object the conversion copied by reference from the caller's initial coefficients (m = 0 entries)
+            elif not adds:
                 form = None
             elif ifs and not ifs[0].orelse and "not in" not in unparse(ifs[0].test):
                 form = "over-delta-no-insert"
@@ -277,7 +279,11 @@ def run(check, repo: Repo) -> None:
             vt_ = unparse(n_.value.value)
             if it_.startswith("updated_coefs_cartesian") and "delta_coefs_cartesian.get(k" in vt_ and "+" in vt_:
                 form = "over-init"
-    if not ok or form is None:
+    if form == "in-place":
+        check.violated("C12-R3", "merge: deltas are added in the Cartesian representation and converted back",
+                       "the deltas are added in place (`+=`): the m = 0 entries of the converted dict are the caller's own coefficient tensors, so merging modifies the initial guess "
+                       "as a side effect — a second merge from the same guess starts from the wrong surface", mod.line(mg))
+    elif not ok or form is None:
         check.violated("C12-R3", "merge: deltas are added in the Cartesian representation and converted back", "merge does not convert → add → convert back", mod.line(mg))
     elif form == "over-delta-insert" or not p2c_sparse:
         check.holds("C12-R3", "merge: deltas are added in the Cartesian representation and converted back", f"{form}; polar→Cartesian is {'sparse' if p2c_sparse else 'dense'}", mod.line(mg))
